@@ -4,6 +4,8 @@ Per-call time limits are 30 s: the code under test has no loops, the limit only 
 (A 3 s limit fired spuriously on a machine with load average > 100, and SIGALRM raised inside falcon's generic
 exception handler turned into a 500 response.)
 """
+import re
+
 PROP = 'C20'
 LEAN_MODULES = ['FalconModel.Cors', 'FalconModel.CorsProofs', 'FalconModel.CorsConfig', 'FalconModel.CorsConfigProofs', 'FalconModel.CorsCall',
                 'FalconModel.Pipeline', 'FalconModel.PipelineProofs', 'FalconModel.PipelineSpec']
@@ -99,6 +101,8 @@ TRUSTED = [
     'the twin application without the CORS middleware as the meaning of "untouched" in the full-stack oracle',
 ]
 ASSUMPTIONS = [
+    'the configuration of a policy is what was handed to its constructor: objects the caller keeps and mutates afterwards (the list / set passed as allow_origins, ...) do not re-configure it; '
+    'the address the request arrived at (scheme, Host, port) is not part of the configuration, so an Origin equal to it is allowed iff it is configured',
     'the request Origin is not the literal string "*" (echoing it would be indistinguishable from the wildcard; browsers never send it)',
     'the wildcard rule speaks about credentials granted by the middleware: a responder that itself pre-sets Access-Control-Allow-Credentials or -Origin is left alone (stated explicitly in DESIGN.md C20)',
     '"withdrawn otherwise" is read as: a successful OPTIONS exchange with Access-Control-Request-Method whose response advertises no Allow (the reading under which F12 was found); a failed exchange keeps the origin grant',
@@ -128,6 +132,12 @@ RULE = ('(0) constructor: allow_origins / expose_headers / allow_credentials dra
         'ends by raising HTTPStatus (200, 204, 302, 401, 503; with an Allow header, without, or after setting Allow on the response itself), HTTPError (400, 405 carrying Allow, 401/429/503 with or without Allow) or a plain exception whose '
         'registered handler answers 500 / sets Allow / raises HTTPStatus 204 with Allow itself; a responder may also RETURN after choosing a status (200, 202, 204, 503). The oracle counts the exchange as successful iff nothing raised '
         'before the CORS process_response ran (every raise of a harness stage is recorded at the raise; the framework\'s own 404 / 405 show as an error status where no harness responder ran) - the status code plays no role; each request also runs against a twin app without the CORS middleware; every process_response call observed inside the app is also fed to the model. '
+        'THE REQUEST\'S OWN ADDRESS is an input at levels (0), (1), (2): scheme http / https x Host (a, b, c, d, A, a.example, a.evil, 127.0.0.1, ...) x port default / 80 / 443 / 8080 (Host header with and without an explicit default port), '
+        'correlated with the Origin: in 45 % of the requests whose Origin is scheme://host[:port] the request arrived at exactly that address (Origin == the request\'s own scheme://Host), in 25 % at an address differing only in scheme / port / letter case / '
+        'explicit default port, otherwise at an unrelated one; origins include https and explicit-port variants of the configured ones; the oracle and the model do not look at the address at all (the statement: exactly the configured origins). '
+        'THE ARGUMENT OBJECTS of the constructor stay the caller\'s: in 50 % of the accepted constructor cases (0), 30 % of the unit cases (1) and 35 % of the apps (2; right after building the app or between two requests) the caller mutates the list / set / dict '
+        '(behind a keys view) they passed - add an item (another origin, "*", a header name), remove one, clear() - after construction; the attributes are read again (second correspondence op of the same call line) and the policy is probed with the added / removed items: '
+        'the configuration is what was passed at construction. '
         'non-trivial = request carries an Origin; distinct = distinct (level, stack, configuration, arrangement, request, plan)')
 PARTIAL = ('Modelled and proved: process_response (Co), CORSMiddleware.__init__ (Cg.normalise) and the cors_enable wiring of App.__init__ / add_middleware with the CORS component inside the C03 call '
            'discipline (Cg + Pl.run_eq_spec). Not modelled in Lean: the producers of the Allow header the preflight rule reads (auto-OPTIONS responder - C02 - and StaticRoute; they are exercised by the '
@@ -219,9 +229,22 @@ def gen_config(rnd):
         vals = rnd.sample(['X-One', 'X-Two', 'X-Three'], rnd.randint(1, 3))
         ex_arg, ex = rnd.choice([list, tuple])(vals), ', '.join(vals)
     kw = {'allow_origins': ao_arg, 'allow_credentials': ac_arg, 'expose_headers': ex_arg}
-    desc = describe_cfg(kw)
+    desc = describe_cfg(kw)             # (a description: the caller's later mutations of the objects do not show in it)
     desc['normalised'] = {'allow_origins': ao if ao == '*' else sorted(ao), 'allow_credentials': ac if ac == '*' else sorted(ac), 'expose_headers': ex}
     return kw, (ao, ac, ex), desc
+
+
+def caller_mutates(rnd, kw, p=1.0):
+    """the caller goes on using the objects they passed: -> list of what was done (the policy must not notice)"""
+    done = []
+    for n in ('allow_origins', 'allow_credentials', 'expose_headers'):
+        if isinstance(kw[n], (list, set)) and rnd.random() < p:
+            extra = rnd.choice(UNIVERSE + ['http://d', 'http://zzz']) if n != 'expose_headers' else 'X-Late'
+            for _ in range(rnd.choice([1, 1, 2])):
+                m = mutate_arg(rnd, kw[n], extra if rnd.random() < 0.7 else None)
+                if m:
+                    done.append({n: m})
+    return done
 
 
 def describe_cfg(kw):
@@ -241,7 +264,101 @@ def describe_cfg(kw):
 def gen_origin(rnd):
     return rnd.choice([None, None, None, 'http://a', 'http://a', 'http://a', 'http://a', 'http://b', 'http://b', 'http://b', 'http://c', 'http://c',
                        'HTTP://A', 'http://A', 'http://a.evil', 'http://a/', '', 'null', 'http://d',
-                       'http://', 'ttp://a', 'p://b', 'a'])      # proper substrings of configured origins
+                       'http://', 'ttp://a', 'p://b', 'a',       # proper substrings of configured origins
+                       'https://a', 'http://a:8080', 'http://b:80', 'https://c:443', 'http://d', 'http://127.0.0.1'])   # scheme / port variants (the request's own address may be any of them)
+
+
+# ---- the request's OWN address (scheme, Host, port) is an input, correlated with the Origin: "exactly the configured origins" must hold
+# whatever name / scheme / port the client used to reach the server - in particular when the Origin is that very address
+ADDR_HOSTS = ['a', 'b', 'c', 'd', 'A', 'a.example', 'a.evil', 'falconframework.org', '127.0.0.1']
+_ORIGIN_RE = re.compile(r'^(https?)://([^/:@?#\s]+)(?::(\d{1,5}))?$')
+
+
+def own_origin(addr):
+    """the origin of a page served from this address, as a browser writes it: default ports omitted (or exactly the Host header the
+    client sent, when that spells the port out)"""
+    if addr.get('hosthdr') is not None:
+        return addr['scheme'] + '://' + addr['hosthdr']
+    dflt = 443 if addr['scheme'] == 'https' else 80
+    return addr['scheme'] + '://' + addr['host'] + ('' if addr['port'] in (None, dflt) else ':%d' % addr['port'])
+
+
+def addr_of_origin(origin):
+    """the address whose own origin is textually `origin` (None when the text is not scheme://host[:port] with a lower-case http(s) scheme)"""
+    m = _ORIGIN_RE.match(origin or '')
+    if not m:
+        return None
+    scheme, host, port = m.group(1), m.group(2), m.group(3)
+    addr = {'scheme': scheme, 'host': host, 'port': None if port is None else int(port), 'hosthdr': None}
+    if port is not None and (int(port) == (443 if scheme == 'https' else 80) or str(int(port)) != port):
+        addr['hosthdr'] = host + ':' + port            # the client spelled the default port out
+    return addr
+
+
+def gen_addr(rnd, origin):
+    """-> (address, relation of the Origin to it): the Origin IS the request's own scheme://host[:port] (45 % when it can be), differs from it
+    only in scheme / port / letter case / an explicit default port (25 %), or is unrelated (random host x http/https x default / 80 / 443 / 8080)"""
+    base = addr_of_origin(origin)
+    r = rnd.random()
+    if base is not None and r < 0.45:
+        return base, 'own'
+    if base is not None and r < 0.70:
+        a = dict(base, hosthdr=None)
+        k = rnd.randrange(4)
+        if k == 0:
+            a['scheme'] = 'https' if a['scheme'] == 'http' else 'http'
+        elif k == 1:
+            a['port'] = rnd.choice([8080, 8000, 81]) if a['port'] is None else None
+        elif k == 2:
+            a['host'] = a['host'].swapcase() if a['host'].swapcase() != a['host'] else a['host'] + '.'
+        else:
+            a['port'] = None
+            a['hosthdr'] = a['host'] + (':443' if a['scheme'] == 'https' else ':80')
+        return a, 'near'
+    scheme = rnd.choice(['http', 'http', 'https'])
+    return {'scheme': scheme, 'host': rnd.choice(ADDR_HOSTS), 'port': rnd.choice([None, None, None, 80, 443, 8080]), 'hosthdr': None}, 'unrelated'
+
+
+def addr_kwargs(addr, hdrs):
+    """keyword arguments of falcon.testing.create_environ / create_scope for a request that arrived at `addr`"""
+    h = dict(hdrs)
+    if addr.get('hosthdr') is not None:
+        h['Host'] = addr['hosthdr']
+    return {'scheme': addr['scheme'], 'host': addr['host'], 'port': addr['port'], 'headers': h}
+
+
+DEFAULT_ADDR = {'scheme': 'http', 'host': 'falconframework.org', 'port': None, 'hosthdr': None}
+
+# ---- the ARGUMENT OBJECTS of the constructor stay the caller's: after construction the caller goes on using (mutating) them
+MUT_EXTRA = ['http://zzz', 'http://d', 'http://b', 'http://c', 'https://a', 'X-Late', '*']
+
+
+def mutate_arg(rnd, target, extra=None):
+    """one thing a caller does to a list / set / dict of their own after having passed it to CORSMiddleware: add an item, remove one, empty it.
+    -> description (None: nothing mutable)"""
+    if not isinstance(target, (list, set, dict)):
+        return None
+    r = rnd.random()
+    if r < 0.55 or not target:
+        x = extra if extra is not None else rnd.choice(MUT_EXTRA)
+        if isinstance(target, list):
+            target.append(x)
+        elif isinstance(target, set):
+            target.add(x)
+        else:
+            target[x] = None
+        return {'added': x}
+    if r < 0.8:
+        x = rnd.choice(sorted(target))
+        if isinstance(target, list):
+            target.remove(x)
+        elif isinstance(target, set):
+            target.discard(x)
+        else:
+            del target[x]
+        return {'removed': x}
+    target.clear()
+    return {'cleared': True}
 
 
 def cfg_words(norm):
@@ -328,20 +445,28 @@ def gen_ctor_arg(rnd, universe, allow_none, p_none, may_star):
     items = [rnd.choice(universe) for _ in range(k)]            # repetitions on purpose
     if may_star and rnd.random() < 0.12:
         items.insert(rnd.randint(0, len(items)), '*')
-    shape = rnd.choice(['list', 'tuple', 'set', 'frozenset', 'gen', 'dictkeys'])
+    shape = rnd.choice(['list', 'tuple', 'set', 'set', 'frozenset', 'gen', 'dictkeys'])
     if shape == 'list':
         obj = list(items)
+        CALLER_OBJECT[id(obj)] = obj
     elif shape == 'tuple':
         obj = tuple(items)
     elif shape == 'gen':
         obj = (x for x in list(items))
     elif shape == 'dictkeys':
-        obj = dict.fromkeys(items).keys()
+        d = dict.fromkeys(items)
+        obj = d.keys()
         items = list(obj)
+        CALLER_OBJECT[id(obj)] = d                              # the caller's dict behind the keys view
     else:
         obj = set(items) if shape == 'set' else frozenset(items)
         items = list(obj)                                       # the order this very object iterates in
+        if shape == 'set':
+            CALLER_OBJECT[id(obj)] = obj
     return 'iter', obj, items, {shape: list(items)}
+
+
+CALLER_OBJECT = {}      # id(argument object) -> the caller's own mutable container behind it (list / set / dict), for the current case
 
 
 def named_by(kind, val, p):
@@ -428,6 +553,7 @@ def _ctor(ctx):
 
     try:
         for ci in range(ctx.n(6000, 40000)):
+            CALLER_OBJECT.clear()
             # settings legal for several parameters (the wildcard, origins as exposed-header names and the other way round), so that
             # a setting that lands in the wrong parameter is visible
             ak, aobj, aitems, adesc = gen_ctor_arg(rnd, CT_UNIVERSE if rnd.random() < 0.9 else EX_UNIVERSE, True, 0.03, True)
@@ -491,7 +617,28 @@ def _ctor(ctx):
                 outcome = 'origins-not-iterable' if (ak == 'none' and not bad_call) else 'TypeError'
                 got = 'err ' + outcome
             case['constructor_outcome'] = outcome
-            sess.op(f"call pos={'/'.join(pos_enc) or '-'} kao={kw_enc.get('allow_origins', '!')} kex={kw_enc.get('expose_headers', '!')} kac={kw_enc.get('allow_credentials', '!')}", got)
+            call_line = f"call pos={'/'.join(pos_enc) or '-'} kao={kw_enc.get('allow_origins', '!')} kex={kw_enc.get('expose_headers', '!')} kac={kw_enc.get('allow_credentials', '!')}"
+            sess.op(call_line, got)
+            # ---- the argument objects are the caller's: after construction the caller goes on using them (add / remove / clear); the configuration
+            #      is what was passed at construction, so the attributes - and the policy, probed below - are those of the original call
+            forced = []
+            if mw is not None and not bad_call and rnd.random() < 0.5:
+                mutated = []
+                for n in DOCUMENTED_ORDER:
+                    tgt = CALLER_OBJECT.get(id(vals[n][1]))
+                    if tgt is not None and (tgt is vals[n][1] or isinstance(tgt, dict)) and (n in kws or n in DOCUMENTED_ORDER[:k]) and rnd.random() < 0.8:
+                        before = list(tgt)
+                        for _ in range(rnd.choice([1, 1, 2])):
+                            m = mutate_arg(rnd, tgt)
+                            if m:
+                                mutated.append({n: m})
+                                if 'added' in m and m['added'] != '*':
+                                    forced.append(m['added'])
+                        forced.extend(x for x in before if x != '*' and x not in tgt)
+                if mutated:
+                    case['caller_mutations_after_construction'] = mutated
+                    ctx.count('ctor_caller_mutated_argument_objects_after_construction')
+                    sess.op(call_line, f'cfg ao={enc_set_attr(mw.allow_origins)} ac={enc_set_attr(mw.allow_credentials)} ex={S(mw.expose_headers)}')
             ctx.count('ctor_' + outcome)
             ctx.count(f'ctor_call_{"malformed" if bad_call else str(k) + "_positional"}')
             ctx.count(f'ctor_how_{how}')
@@ -516,27 +663,35 @@ def _ctor(ctx):
                     probes.update([b[:-1], b[1:], b + '.evil', b + '/', b.upper(), b.lower(), b[:len(b) // 2]])
                 probes.update(['http://zzz', 'http://a', 'a'])
                 probes.discard('*')
-                for p_ in rnd.sample(sorted(probes), min(len(probes), 6 if app is None else 3)):
+                forced = [x for x in dict.fromkeys(forced) if isinstance(x, str)][:3]
+                probes.update(['https://a', 'http://b:80', 'http://a.example:8080'])
+                for p_ in forced + rnd.sample(sorted(probes), min(len(probes), 6 if app is None else 3)):
+                    addr, rel = gen_addr(rnd, p_)          # the request may have arrived at the very address the Origin names
                     if app is not None:
                         if not p_.isascii() or p_ != p_.strip():
                             continue
-                        _, hd, _ = _http_call(asgi, loop, app, 'GET', '/x', {'Origin': p_})
+                        _, hd, _ = _http_call(asgi, loop, app, 'GET', '/x', {'Origin': p_}, addr)
                         acao, acac, aceh = (hd.get(n) for n in ('access-control-allow-origin', 'access-control-allow-credentials', 'access-control-expose-headers'))
                     else:
                         asgi = rnd.random() < 0.5
                         if asgi:
                             async def receive():
                                 return {'type': 'http.disconnect'}
-                            req = falcon.asgi.Request(ft.create_scope(method='GET', path='/x', headers={'Origin': p_}), receive)
+                            req = falcon.asgi.Request(ft.create_scope(method='GET', path='/x', **addr_kwargs(addr, {'Origin': p_})), receive)
                             resp = falcon.asgi.Response()
                             loop.run_until_complete(mw.process_response_async(req, resp, None, True))
                         else:
-                            req = falcon.Request(ft.create_environ(method='GET', path='/x', headers={'Origin': p_}))
+                            req = falcon.Request(ft.create_environ(method='GET', path='/x', **addr_kwargs(addr, {'Origin': p_})))
                             resp = falcon.Response()
                             mw.process_response(req, resp, None, True)
                         acao, acac, aceh = (resp.get_header(n) for n in ('Access-Control-Allow-Origin', 'Access-Control-Allow-Credentials', 'Access-Control-Expose-Headers'))
                     why, allowed, cred = _probe_rules(ak, aitems, ek, eitems, ck, citems, p_, acao, acac, aceh)
-                    pc = dict(case, probe_origin=p_, stack='asgi' if asgi else 'wsgi', probed='GET /x through the app' if app is not None else 'process_response')
+                    pc = dict(case, probe_origin=p_, request_arrived_at=own_origin(addr), origin_vs_own_address=rel, stack='asgi' if asgi else 'wsgi',
+                              probed='GET /x through the app' if app is not None else 'process_response')
+                    if rel != 'unrelated':
+                        ctx.count(f'ctor_probe_origin_{"is_the_request_own_address" if rel == "own" else "near_the_request_own_address"}_' + ('allowed' if allowed else 'refused'))
+                    if p_ in forced:
+                        ctx.count('ctor_probe_of_an_item_the_caller_added_or_removed_later')
                     ctx.oracle('constructed middleware (any calling convention, read by the documented signature; directly and inside an app): an Origin is granted iff it is literally named by allow_origins (whole string, case-sensitive), credentials iff also named by allow_credentials, expose_headers joined with ", "',
                                why is None, why, pc)
                     ctx.count('ctor_probe_' + ('credentialed' if cred else 'allowed' if allowed else 'refused'))
@@ -548,13 +703,13 @@ def _ctor(ctx):
 
 # ------------------------------------------------------------------ (0b) cors_enable wiring = Cg.appInit / Cg.runAdds, and Pl.run on that stack
 
-def _http_call(asgi, loop, app, method, path, hdrs):
+def _http_call(asgi, loop, app, method, path, hdrs, addr=DEFAULT_ADDR):
     """one request against a real app -> (status, {lower name: value}, body)"""
     import asyncio
     from runner import alarm
     import falcon.testing as ft
     if not asgi:
-        env = ft.create_environ(method=method, path=path, headers=hdrs)
+        env = ft.create_environ(method=method, path=path, **addr_kwargs(addr, hdrs))
         st = []
         with alarm(30):
             it = app(env, lambda s, h, e=None: st.append((s, h)))
@@ -567,7 +722,7 @@ def _http_call(asgi, loop, app, method, path, hdrs):
         for k, v in st[0][1]:
             hd[k.lower()] = (hd[k.lower()] + ', ' + v) if k.lower() in hd else v
         return int(st[0][0].split()[0]), hd, body
-    scope = ft.create_scope(method=method, path=path, headers=hdrs)
+    scope = ft.create_scope(method=method, path=path, **addr_kwargs(addr, hdrs))
     events = [{'type': 'http.request', 'body': b'', 'more_body': False}, {'type': 'http.disconnect'}]
     sent = []
 
@@ -884,7 +1039,13 @@ def _unit(ctx, asgi):
             if mw is None:
                 ctx.oracle('a documented constructor call with legal settings is accepted', False, desc['constructed'], {'level': 'unit', 'stack': stack, 'config': desc})
                 continue
+            # the objects handed to the constructor stay the caller's, who goes on using them: the policy is what was configured at construction
+            mutated = caller_mutates(rnd, kw) if rnd.random() < 0.3 else []
+            if mutated:
+                desc['caller_mutations_after_construction'] = mutated
+                ctx.count('unit_caller_mutated_argument_objects_after_construction')
             origin = gen_origin(rnd)
+            addr, rel = gen_addr(rnd, origin)
             method = rnd.choice(['GET', 'POST', 'OPTIONS', 'OPTIONS', 'OPTIONS', 'HEAD', 'DELETE'])
             acrm = rnd.choice([None, 'GET', 'GET', 'PUT', ''])
             acrh = rnd.choice([None, None, 'X-H', 'X-H, Content-Type', ''])
@@ -899,11 +1060,13 @@ def _unit(ctx, asgi):
             if asgi:
                 async def receive():
                     return {'type': 'http.disconnect'}
-                req = falcon.asgi.Request(ft.create_scope(method=method, path='/x', headers=hdrs), receive)
+                req = falcon.asgi.Request(ft.create_scope(method=method, path='/x', **addr_kwargs(addr, hdrs)), receive)
                 resp = falcon.asgi.Response()
             else:
-                req = falcon.Request(ft.create_environ(method=method, path='/x', headers=hdrs))
+                req = falcon.Request(ft.create_environ(method=method, path='/x', **addr_kwargs(addr, hdrs)))
                 resp = falcon.Response()
+            if origin is not None and rel == 'own' and req.scheme + '://' + req.netloc != origin:
+                ctx.count('harness_request_does_not_report_the_address_it_was_built_for')
             preset = {}
             for k, n in NAMED:
                 if rnd.random() < (0.45 if k == 'allow' else 0.12):
@@ -918,7 +1081,7 @@ def _unit(ctx, asgi):
             else:
                 mw.process_response(req, resp, None, ok)
             post = snapshot(resp)
-            case = {'level': 'unit', 'stack': stack, 'config': desc, 'request': {'method': method, 'headers': hdrs}, 'response_headers_before': {**{n: pre[0][k] for k, n in NAMED if pre[0][k] is not None}, **pre[1]}, 'req_succeeded': ok}
+            case = {'level': 'unit', 'stack': stack, 'config': desc, 'request': {'method': method, 'headers': hdrs, 'arrived_at': own_origin(addr), 'origin_vs_own_address': rel}, 'response_headers_before': {**{n: pre[0][k] for k, n in NAMED if pre[0][k] is not None}, **pre[1]}, 'req_succeeded': ok}
             sess.case(case)
             line, exp = model_io(norm, origin, method, acrm, acrh, ok, pre, post)
             sess.op(line, exp)
@@ -937,6 +1100,8 @@ def _unit(ctx, asgi):
                        why is None, why, case)
             ctx.seen(('unit', stack, line), origin is not None)
             ctx.count(f'unit_{stack}_' + ('no_origin' if origin is None else 'allowed' if allowed else 'disallowed'))
+            if origin is not None and rel != 'unrelated':
+                ctx.count(f'unit_origin_{"is_the_request_own_address" if rel == "own" else "near_the_request_own_address"}_' + ('allowed' if allowed else 'disallowed'))
             if allowed and ok and method == 'OPTIONS' and acrm:
                 ctx.count(f'unit_{stack}_preflight_' + ('approved' if pre[0]['allow'] is not None else 'denied'))
     finally:
@@ -1182,10 +1347,10 @@ def _apps(ctx, asgi):
         app.add_error_handler(Boom, on_boom)
         return app
 
-    def call(app, method, path, hdrs):
+    def call(app, method, path, hdrs, addr=DEFAULT_ADDR):
         """-> (status, {lower name: value}, body)"""
         if not asgi:
-            env = ft.create_environ(method=method, path=path, headers=hdrs)
+            env = ft.create_environ(method=method, path=path, **addr_kwargs(addr, hdrs))
             st = []
             with alarm(30):
                 it = app(env, lambda s, h, e=None: st.append((s, h)))
@@ -1198,7 +1363,7 @@ def _apps(ctx, asgi):
             for k, v in st[0][1]:
                 hd[k.lower()] = (hd[k.lower()] + ', ' + v) if k.lower() in hd else v
             return int(st[0][0].split()[0]), hd, body
-        scope = ft.create_scope(method=method, path=path, headers=hdrs)
+        scope = ft.create_scope(method=method, path=path, **addr_kwargs(addr, hdrs))
         events = [{'type': 'http.request', 'body': b'', 'more_body': False}, {'type': 'http.disconnect'}]
         sent = []
 
@@ -1284,8 +1449,17 @@ def _apps(ctx, asgi):
                 app = build(pre_m + [cors] + post_m, indep)
                 twin = build(pre_m + post_m, indep)
             ao, ac, ex = norm
-            for ri in range(rnd.randint(14, 22)):
+            n_req = rnd.randint(14, 22)
+            # the caller goes on using the objects they configured the middleware with: right after building the app, or between two requests
+            mutate_at = rnd.choice([0, 0, rnd.randrange(n_req)]) if (not arrangement.startswith('enable') and rnd.random() < 0.35) else None
+            for ri in range(n_req):
+                if ri == mutate_at:
+                    mutated = caller_mutates(rnd, kw)
+                    if mutated:
+                        desc = dict(desc, caller_mutations_after_construction=mutated, mutated_before_request=ri)
+                        ctx.count(f'app_{stack}_caller_mutated_argument_objects_after_construction')
                 origin = gen_origin(rnd)
+                addr, rel = gen_addr(rnd, origin)
                 method = rnd.choice(['GET', 'POST', 'OPTIONS', 'OPTIONS', 'OPTIONS', 'HEAD', 'DELETE'])
                 acrm = rnd.choice([None, 'GET', 'GET', 'PUT', ''])
                 acrh = rnd.choice([None, None, 'X-H', 'X-H, Content-Type', ''])
@@ -1300,15 +1474,15 @@ def _apps(ctx, asgi):
                 if acrh is not None:
                     hdrs['Access-Control-Request-Headers'] = acrh
                 case = {'level': 'app', 'stack': stack, 'config': desc, 'arrangement': arrangement, 'independent_middleware': indep,
-                        'request': {'method': method, 'path': path, 'headers': hdrs},
+                        'request': {'method': method, 'path': path, 'headers': hdrs, 'arrived_at': own_origin(addr), 'origin_vs_own_address': rel},
                         'responder_plan': {k: v for k, v in PLAN.items()}}
                 why = None
                 try:
                     del REC[:], RAN[:], RAISED[:]
-                    T = call(twin, method, path, hdrs)
+                    T = call(twin, method, path, hdrs, addr)
                     twin_ran, twin_raised = list(RAN), list(RAISED)
                     del REC[:], RAN[:], RAISED[:]
-                    F = call(app, method, path, hdrs)
+                    F = call(app, method, path, hdrs, addr)
                     rec, app_ran, app_raised = list(REC), list(RAN), list(RAISED)
                 except Hang:
                     why = 'request did not return (hang)'
@@ -1357,6 +1531,8 @@ def _apps(ctx, asgi):
                                 why += ' [raised during the exchange: ' + ', '.join(f'{st_} ({PLAN["end"][st_]["kind"]}{PLAN["end"][st_].get("code", "")})' for st_, _ in app_raised) + ']'
                     ctx.count(f'app_{stack}_' + ('no_origin' if origin is None else 'allowed' if allowed else 'disallowed'))
                     ctx.count(f'app_{stack}_arrangement_{arrangement}')
+                    if origin is not None and rel != 'unrelated':
+                        ctx.count(f'app_origin_{"is_the_request_own_address" if rel == "own" else "near_the_request_own_address"}_' + ('allowed' if allowed else 'disallowed'))
                     if allowed and method == 'OPTIONS' and acrm:
                         ctx.count(f'app_{stack}_preflight_' + ('failed_exchange' if T[0] >= 400 else 'approved' if 'access-control-allow-methods' in Fh else 'denied'))
                         tgt = {'/r': 'auto-options', '/ro': 'on_options', '/rh': 'hooked-on_options', '/none': 'unrouted'}.get(path, path.split('/')[1])
@@ -1373,7 +1549,7 @@ def _apps(ctx, asgi):
                             ctx.count(f'app_preflight_raise_of_{what}' + ('_with_Allow' if al else ''))
                 ctx.oracle('final response: identical to the twin app without the middleware unless the Origin is allowed; grants, credentials, wildcard and preflight rules of the statement otherwise',
                            why is None, why, case)
-                ctx.seen(('app', stack, str(desc), arrangement, indep, method, path, str(sorted(hdrs.items())), str(sorted(PLAN.items(), key=str))), origin is not None)
+                ctx.seen(('app', stack, str(desc), arrangement, indep, method, path, own_origin(addr), str(sorted(hdrs.items())), str(sorted(PLAN.items(), key=str))), origin is not None)
     finally:
         if loop is not None:
             loop.close()
